@@ -232,8 +232,11 @@ class Handler:
                 if r["k"] == "agg" and r.get("def"):
                     for ck, cb in self.bodies.items():
                         if cb.id == r["def"]:
+                            # the future of a new `async fn` helper that was spliced in (rules/inline.py) is awaited where
+                            # it is built: its events happen here, like those of code written in place
+                            inline_helper = bool(cb.j.get("reowned_from")) and bool(blk.get("inl"))
                             for e in self._nested_events(ck, cb):
-                                evs.append(Ev(e.kind, e.detail, b, k, bi, e.sp, nested=cb.id.replace(self.owner, ""), extra=e.extra))
+                                evs.append(Ev(e.kind, e.detail, b, k, bi, e.sp, nested=None if inline_helper else cb.id.replace(self.owner, ""), extra=e.extra))
             t = blk["t"]
             if t["k"] == "call":
                 if t["d"]["l"] == 0 and not t["d"]["pr"] and any(n.endswith("from_residual") for n in callee_names(t)) and "instrument" not in t["sp"]:
